@@ -125,7 +125,10 @@ def build_conn(b, seed, params=None):
             if pk["t"] == "A":
                 kw["gen"] = pk["gen"]
                 if p.get("pn_gaps") and rng.random() < 0.4:
-                    kw["skip"] = rng.choice([1, 2, 5, 200, 70000]) if p.get("pn_gaps") == "big" else rng.choice([1, 2, 5])
+                    kw["skip"] = rng.choice([1, 2, 5, 200, 70000]) if p.get("pn_gaps") == "big" else \
+                        rng.choice([255, 65535, (1 << 24) + 3, (1 << 30) + 1, (1 << 31) - 7]) if p.get("pn_gaps") == "huge" else rng.choice([1, 2, 5])
+                    if p.get("pn_gaps") == "huge":
+                        kw["pnlen"] = 4
                 # switch to a connection ID the peer issued with NEW_CONNECTION_ID
                 o = "s" if d == "c" else "c"
                 if p.get("cid_switch") and c.issued[o] and rng.random() < 0.5:
